@@ -6,6 +6,10 @@ instantiations of all four digit types and (thorough) the complete 8-bit enumera
 """
 from .common import *
 
+# other public routes to this property's operations (check.py step 2d): the neighbour generator's requests whose
+# operation matches are part of this run, answered by the neighbour's harness bin
+NEIGHBOURS = {"C17": r"(cmp_|ord_|max_|min_|clamp_)"}
+
 BIN = ["eq", "ne", "cmp", "lt", "le", "gt", "ge", "max", "min", "op_eq", "op_ne", "op_lt", "op_le", "op_gt", "op_ge",
        "ord_cmp", "partial_cmp", "ord_max", "ord_min", "hash_set"]
 CLAMP = ["clamp", "ord_clamp"]
